@@ -44,8 +44,9 @@ def oracle(h, arrivals, horizon):
         j += 1
 
 
-def run_impl(h, arrivals, horizon, kinds):
-    """Real connection with keepalive K = 2h units; returns [('P', t) | ('X', t)] in units."""
+def run_impl(h, arrivals, horizon, kinds, sends=()):
+    """Real connection with keepalive K = 2h units; returns [('P', t) | ('X', t)] in units.
+    sends: times at which the CLIENT writes a command - the property counts the device's messages only."""
     from aioesphomeapi import api_pb2 as pb
     from aioesphomeapi.core import PingFailedAPIError
     K = 2 * h * UNIT
@@ -67,11 +68,15 @@ def run_impl(h, arrivals, horizon, kinds):
                     orig(expected)
             conn.on_stop = on_stop
             n0 = len(tr.writes)
-            for a, k in zip(arrivals, kinds):
+            schedule = sorted([(a, 0, k) for a, k in zip(arrivals, kinds)] + [(t, 1, 0) for t in sends])
+            for a, what, k in schedule:
                 await simnet.advance(loop, to=t0 + a * UNIT)
                 if stops:
                     break
-                tr.feed(simnet.plain_msg(msgs[k % len(msgs)]))
+                if what == 0:
+                    tr.feed(simnet.plain_msg(msgs[k % len(msgs)]))
+                else:
+                    cli.switch_command(5, True)
                 await simnet.drain(loop)
             await simnet.advance(loop, to=t0 + horizon * UNIT)
             ev = []
@@ -125,7 +130,7 @@ def run(rep, tier, seed):
     rng = random.Random(seed)
     rep.coverage["rule"] = (
         "keepalive K in {0.25,1,2.5,5,7,15,20} s x arrival schedules (grid of K/16 with +-2^-10 s jitter, edges around every tick and pong deadline, "
-        "bursts, single message, chatty peers with gaps just under/over K, 2K, 4.5K, messages inside the pong window, total silence) of valid messages of 6 types; "
+        "bursts, single message, chatty peers with gaps just under/over K, 2K, 4.5K, messages inside the pong window, total silence) of valid messages of 6 types, every third schedule with the client itself writing commands throughout; "
         "arrivals exactly at a timer instant are excluded (order of equal timers is loop-internal); non-trivial = at least one ping is written; distinct by (K, schedule)")
     proofs_ok = rep.proofs(VFILE)
     ok, log = common.build_driver()
@@ -144,9 +149,15 @@ def run(rep, tier, seed):
     lines = [f"ka {h} {hz} " + " ".join(map(str, arr)) for h, arr, hz, _ in cases]
     mout = common.run_driver(lines)
     disagreements = []
-    for (h, arr, hz, mode), mo in zip(cases, mout):
+    for ci, ((h, arr, hz, mode), mo) in enumerate(zip(cases, mout)):
         kinds = [rng.randrange(6) for _ in arr]
-        impl = run_impl(h, arr, hz, kinds)
+        # every third schedule: the client itself keeps writing (commands); that is not traffic from the device
+        sends = []
+        if ci % 3 == 0:
+            step = rng.choice([h // 2 + 1, h + 3, 2 * h - 5, 3 * h + 1])
+            sends = [t for t in range(rng.randrange(1, 2 * h), hz, step) if t % h != 0 and t not in arr][:200]
+            rep.bump("client-sends")
+        impl = run_impl(h, arr, hz, kinds, sends)
         exp = oracle(h, arr, hz)
         model = [(x[0], int(x[1:])) for x in mo.split(",") if x]
         rep.bump("mode:" + mode)
@@ -167,7 +178,7 @@ def run(rep, tier, seed):
             else:
                 sig, what = "C10/death-time", f"death {ix} vs expected {ex_} (units of 1/1024 s)"
             rep.violation(sig, f"K={2 * h * UNIT} s, arrivals {[a * UNIT for a in arr][:10]}: {what}",
-                          {"kind": "impl-case", "h": h, "arrivals": arr, "horizon": hz, "kinds": kinds, "expected": exp, "observed": impl})
+                          {"kind": "impl-case", "h": h, "arrivals": arr, "horizon": hz, "kinds": kinds, "client_sends": sends, "expected": exp, "observed": impl})
         if model != impl:
             disagreements.append({"h": h, "arrivals": arr, "horizon": hz, "model": model[:20], "impl": impl[:20]})
     rep.coverage["disagreements"] = len(disagreements)
@@ -184,7 +195,7 @@ def replay(path):
     if d.get("kind") != "impl-case":
         print("nothing to replay:", d.get("kind"))
         return 0
-    impl = run_impl(d["h"], d["arrivals"], d["horizon"], d["kinds"])
+    impl = run_impl(d["h"], d["arrivals"], d["horizon"], d["kinds"], d.get("client_sends", ()))
     exp = oracle(d["h"], d["arrivals"], d["horizon"])
     print("observed:", impl)
     print("expected:", exp)
